@@ -159,6 +159,11 @@ namespace Dune
           self[ normalizeIndex( self, i ) ] = x;
         }, "i"_a, "x"_a );
 
+      // a Python integer that does not fit into ssize_t is out of range for every vector: IndexError (as for a list), not
+      // the TypeError pybind11 reports when no overload accepts the argument
+      cls.def( "__getitem__", [] ( const T &, pybind11::int_ ) -> ValueType { throw pybind11::index_error(); }, "i"_a );
+      cls.def( "__setitem__", [] ( T &, pybind11::int_, ValueType ) { throw pybind11::index_error(); }, "i"_a, "x"_a );
+
       cls.def( "__len__", [] ( const T &self ) -> std::size_t { return self.size(); } );
 
       cls.def( pybind11::self += pybind11::self );
